@@ -36,6 +36,7 @@ class Evaluator:
         self.R = Renderer(fn)
         self.model = model
         self.used = set()
+        self.unknown = {}   # rendering -> type class of leaves that could not be evaluated
 
     def atom(self, i):
         r = self.R.render(i)
@@ -91,7 +92,7 @@ class Evaluator:
             sd = self.R.single_def_locals()
             if n['decl']['id'] in sd:
                 return self.ev(sd[n['decl']['id']]['init'])
-            return None
+            return self.model.get('local:' + n['decl']['name'])
         if k == 'UnaryOperator':
             v = self.ev(n['ch'][0])
             if v is None:
@@ -161,6 +162,8 @@ class Evaluator:
             if c is None:
                 return None
             return self.ev(n['lhs'] if c else n['rhs'])
+        if k in ('CXXMemberCallExpr', 'MemberExpr', 'CXXOperatorCallExpr', 'CallExpr', 'ArraySubscriptExpr'):
+            self.unknown[self.R.render(i)] = n.get('tc')
         return None
 
 
@@ -169,6 +172,7 @@ def walk(fn, model, start=None, stop=None, follow_loops=False, max_steps=5000):
     evaluating its condition on the model.  Returns (events, end, undecided_conditions) where events
     is the list of node ids met (in order), end in {'NEXIT','XEXIT','throw:<type>@node','stop@node','loop'}"""
     g = fn.events()
+    model = dict(model)
     ev = Evaluator(fn, model)
     v = start if start is not None else g.ENTRY
     out = []
@@ -195,10 +199,27 @@ def walk(fn, model, start=None, stop=None, follow_loops=False, max_steps=5000):
             out.append(nid)
             if n['k'] == 'CXXThrowExpr':
                 return out, 'throw:%s@%d' % (n.get('throw_t'), nid), undec
+            # scalar locals with several definitions (loop counters): tracked along the walk
+            if n['k'] == 'DeclStmt':
+                for d in n['decls']:
+                    if 'init' in d and d.get('tc') in ('s', 'u', 'b', 'f') and d['id'] not in ev.R.single_def_locals():
+                        val = ev.ev(d['init'])
+                        model['local:' + d['name']] = wrap(val, d.get('tc'), d.get('tw')) if val is not None else None
+            elif n['k'] == 'UnaryOperator' and n['op'] in ('++', '--'):
+                t = fn.nodes[fn.strip(n['ch'][0], 'all')]
+                if t['k'] == 'DeclRefExpr' and t['decl'].get('dk') == 'local':
+                    key = 'local:' + t['decl']['name']
+                    if model.get(key) is not None:
+                        model[key] = wrap(model[key] + (1 if n['op'] == '++' else -1), t.get('tc'), t.get('tw'))
+            elif n['k'] == 'BinaryOperator' and n['op'] == '=':
+                t = fn.nodes[fn.strip(n['ch'][0], 'all')]
+                if t['k'] == 'DeclRefExpr' and t['decl'].get('dk') == 'local' and t['decl']['id'] not in ev.R.single_def_locals():
+                    model['local:' + t['decl']['name']] = ev.ev(n['ch'][1])
         if v in g.branch and g.branch[v]['cond'] >= 0 and len(g.branch[v]['targets']) == 2 and not g.branch[v]['tempdtor']:
+            ev.unknown.clear()
             val = ev.ev(g.branch[v]['cond'])
             if val is None:
-                undec.append(g.branch[v]['cond'])
+                undec.append((g.branch[v]['cond'], dict(ev.unknown)))
                 return out, 'undecided@%d' % g.branch[v]['cond'], undec
             tg = g.branch[v]['targets'][0 if val else 1]
             if not tg:
